@@ -87,6 +87,12 @@ static size_t ares_evsys_select_wait(ares_event_thread_t *e,
   struct timeval  tv;
   struct timeval *tout = NULL;
 
+  /* Registered handles but no list: out of memory.  Don't sleep (possibly
+   * forever) without watching anything, not even the wake handle */
+  if (fdlist == NULL && ares_htable_asvp_num_keys(e->ev_sock_handles) > 0) {
+    return 0; /* LCOV_EXCL_LINE: OutOfMemory */
+  }
+
   FD_ZERO(&read_fds);
   FD_ZERO(&write_fds);
   FD_ZERO(&except_fds);
